@@ -85,6 +85,18 @@ func (u *Unit) logHavoc(st *State, guard *Term) {
 	u.logsUsed = true
 }
 
+// sentAllocatedDuring: the ghost snapshot logsent(k) of an entry appended by a callee (or by earlier iterations of a loop) is an
+// object allocated while that callee (loop) ran -- this is how the snapshot is defined (clientCall allocates it at the call) --
+// so it is distinct from every object that existed before and is left alone by every later frame.
+func (u *Unit) sentAllocatedDuring(st *State, guard *Term, lenBefore, allocBefore *Term) {
+	c := u.c
+	k := c.BoundVar("lk", SInt)
+	sel := c.Select(u.logArr(st, "sent", SRef), k)
+	in := c.And(c.Le(lenBefore, k), c.Lt(k, u.logLen(st)))
+	fresh := c.And(c.Le(allocBefore, c.Root(sel)), c.Lt(c.Root(sel), st.alloc), c.Eq(c.PathOf(sel), c.PNil()))
+	u.assume(guard, c.Forall([]*Term{k}, c.Implies(in, fresh), []*Term{sel}))
+}
+
 // clientCall models one method of the controller-runtime client interfaces. Returns nil if name is not one.
 func (u *Unit) clientCall(fc *frameCtx, name string, sig *types.Signature, args []*SV, st *State, pc *Term, pos token.Pos) ([]*SV, bool) {
 	verb, ok := clientVerbs[name]
